@@ -131,6 +131,10 @@ def typed_selfcheck(typed, style, chars):
     opening, closing, _raw, _p = STYLES[style]
     if style == "none":
         return True
+    _o, _c, raw, _p = STYLES[style]
+    if raw and (len(chars) - len(chars.rstrip("\\"))) % 2 == 1:
+        # an unclosed raw string may end in a backslash; it cannot be closed as it stands
+        typed, chars = typed[:-1], chars[:-1]
     src = typed + closing
     if src.startswith("p"):
         src = src[1:]
@@ -143,25 +147,56 @@ def typed_selfcheck(typed, style, chars):
 # ----------------------------------------------------------------------------------------
 # Part A: known findings (narrow predicates) and shapes excluded from generation while they are open
 
-KNOWN_A = ("C18-F1", "C18-F2", "C18-F3", "C18-F4")
-
-
 def _has_ctrl_completer(s):
     # the control characters the completer switches to a non-raw string for
     return any(c in s for c in "\n\t\r\x0c\x0b")
 
 
-def shape_of(name, isdir, relpath):
-    """Which recorded-finding shapes a (name, isdir) entry has; relpath is the path as the completer sees it."""
+def _quote_in_use(style, relpath):
+    """The quote character the completion will be written with (the user's, else the completer's choice)."""
+    if style != "none":
+        return STYLES[style][1][0]
+    return '"' if ("'" in relpath and '"' not in relpath) else "'"
+
+
+def _lexmsg_shape(text):
+    for m in re.finditer(r"\w+", text):
+        c = m.group()[0]
+        if ord(c) > 127 and not c.isidentifier():
+            return True
+    return False
+
+
+def shape_of(name, isdir, relpath, style="none"):
+    """Which recorded-finding shapes a directory entry has when completed in the given quote style; relpath is
+    the path as the completer sees it."""
     out = set()
     if name.endswith("\\") and not isdir and not _has_ctrl_completer(relpath):
         out.add("C18-F1")
-    if "!" in name:
+    if "!" in name and style == "none":
         out.add("C18-F2")
-    if ("\\" in relpath or "$" in relpath) and not _has_ctrl_completer(relpath) and ("'" in relpath or '"' in relpath):
+    if ("\\" in relpath or "$" in relpath) and not _has_ctrl_completer(relpath) and _quote_in_use(style, relpath) in relpath:
         out.add("C18-F3")
     if name.endswith(" "):
         out.add("C18-F4")
+    if style == "none" and _lexmsg_shape(relpath):
+        out.add("C18-F6")
+    return out
+
+
+def case_shapes(case):
+    """Recorded-finding shapes of a whole Part A case (entry shapes of the target and of every decoy, plus the
+    shapes that depend on what the user typed)."""
+    dirpart = ("./" if case.get("dot") else "") + (case["subdir"] + "/" if case.get("subdir") else "")
+    out = shape_of(case["name"], case["isdir"], dirpart + case["name"], case["style"])
+    for d, isd in case.get("decoys", []):
+        out |= shape_of(d, isd, dirpart + d, case["style"])
+    if case.get("subdir"):
+        out |= {f for f in shape_of(case["subdir"], True, case["subdir"], case["style"]) if f in ("C18-F4",)}
+    if case["style"] in ("tsq", "tdq") and case.get("closed"):
+        out.add("C18-F10")
+    if case["style"] in ("sq", "dq", "tsq", "tdq", "psq", "pdq") and not dirpart and min(case["k"], len(case["name"])) == 0:
+        out.add("C18-F11")
     return out
 
 
@@ -286,7 +321,7 @@ def _execute(src):
     try:
         try:
             st["session"].xexec(src + "\n")
-        except (KeyboardInterrupt, SystemExit):
+        except KeyboardInterrupt:
             raise
         except BaseException as e:  # noqa: BLE001
             return ("%s" % type(e).__name__, str(e)[:160])
@@ -303,8 +338,15 @@ def _classify_a(case, info, cand, got, kind):
     C18-F2  name containing `!` inserted bare (no quote in the candidate): the word is split at the `!`
     C18-F3  candidate is a raw string whose quote character occurs in the name: the escaping backslash is delivered
     C18-F4  name ending in a blank: the completer strips trailing blanks, the candidate names a different path
+    C18-F6  (lexer) bare candidate whose word starts with a non-ASCII digit-like character: the lexer's error
+            message is delivered
+    C18-F10 closing TRIPLE quote already after the cursor: not noticed, a second closing quote (+ blank) is inserted
+    C18-F11 nothing typed yet after a non-raw opening quote: the quote itself is taken for the path prefix
     """
     name = case["name"]
+    shapes = case_shapes(case)
+    if "C18-F11" in shapes and kind in ("line-error", "target-lost", "argv-shape", "names-nothing"):
+        return "C18-F11"
     entries = [(case["name"], case["isdir"])] + [(d[0], d[1]) for d in case.get("decoys", [])]
     text = cand[0] if cand else ""
     stripped = text.rstrip(" ")
@@ -334,6 +376,11 @@ def _classify_a(case, info, cand, got, kind):
         # the candidate for the target collapsed onto / was replaced by another entry's text
         if name.endswith(" "):
             return "C18-F4"
+    if "C18-F10" in shapes and kind in ("line-error", "argv-shape", "names-nothing") and cand_q and \
+            stripped.endswith(cand_q * 3) and len(stripped) >= 6:
+        return "C18-F10"
+    if "C18-F6" in shapes and not cand_q and isinstance(got, list) and any(_LEXMSG in a for call in got for a in call):
+        return "C18-F6"
     return None
 
 
@@ -344,6 +391,9 @@ def check_case_a(case):
     info = build_line(case)
     if info is None:
         return None, False, ["A:outside-domain"]
+    if os.getcwd() != cwd:
+        os.chdir(cwd)
+    st["XSH"].env["PWD"] = cwd
     _wipe(cwd)
     base = cwd
     if case.get("subdir"):
@@ -474,7 +524,7 @@ def _variants(name):
     return out
 
 
-def pick_decoys(name, choices, open_ids, dirpart):
+def pick_decoys(name, choices):
     """choices: list of (index, isdir) drawn by the generator; returns [[decoy, isdir], ...]"""
     pool = ["decoy", "zz top"] + _variants(name)
     out, seen = [], {name}
@@ -482,11 +532,55 @@ def pick_decoys(name, choices, open_ids, dirpart):
         d = pool[idx % len(pool)]
         if not d or d in seen or d in (".", "..") or "/" in d or "\x00" in d or len(d.encode("utf-8", "surrogatepass")) > 200:
             continue
-        if shape_of(d, isd, dirpart + d) & open_ids:
-            continue
         seen.add(d)
         out.append([d, bool(isd)])
     return out
+
+
+_NONIDENT_RE = re.compile(r"[^\x00-\x7f]")
+
+
+def repair_known(case, open_ids, stats=None, flip=False):
+    """Recorded findings: while a finding is open its shape is not generated.  The drawn case is rewritten into
+    the nearest case without the shape (counted once per finding in stats.excluded_known); None = give up."""
+    counted = set()
+    for _ in range(5):
+        shp = case_shapes(case) & open_ids
+        if not shp:
+            return case
+        if stats is not None:
+            for fid in shp - counted:
+                stats.excluded_known[fid] += 1
+        counted |= shp
+        case = dict(case)
+        dirpart = ("./" if case["dot"] else "") + (case["subdir"] + "/" if case["subdir"] else "")
+        case["decoys"] = [d for d in case["decoys"] if not (shape_of(d[0], d[1], dirpart + d[0], case["style"]) & open_ids)]
+        name, subdir = case["name"], case["subdir"]
+        if "C18-F1" in shp:
+            name = name.rstrip("\\") + "b"
+        if "C18-F2" in shp:
+            name = name.replace("!", "i")
+        if "C18-F4" in shp:
+            name = name.rstrip(" ") + "_"
+            subdir = (subdir.rstrip(" ") + "_") if subdir.endswith(" ") else subdir
+        if "C18-F6" in shp:
+            fix = lambda t: "".join("n" if (ord(c) > 127 and re.match(r"\w", c) and not c.isidentifier()) else c for c in t)  # noqa: E731
+            name, subdir = fix(name), fix(subdir)
+        if "C18-F3" in shape_of(name, case["isdir"], dirpart + name, case["style"]) & open_ids:
+            if flip:
+                name, subdir = name.replace("\\", "b").replace("$", "S"), subdir.replace("\\", "b").replace("$", "S")
+            else:
+                q = _quote_in_use(case["style"], dirpart + name)
+                name, subdir = name.replace(q, "q"), subdir.replace(q, "q")
+                if case["style"] == "none":
+                    name, subdir = name.replace("'", "q"), subdir.replace("'", "q")
+        if "C18-F10" in shp:
+            case["closed"] = False
+        if "C18-F11" in shp:
+            case["k"] = 1
+        case["name"], case["subdir"] = name, subdir
+        case["k"] = min(case["k"], len(name))
+    return None
 
 
 def case_strategy_a(open_ids, stats=None):
@@ -525,45 +619,14 @@ def case_strategy_a(open_ids, stats=None):
                 subdir = "s " + "".join(c for c in subdir if c not in "/\x00~")[:20]
         dot = draw(hs.integers(0, 7)) == 0
         style = draw(hs.sampled_from(STYLE_IDS + ["none", "none", "sq", "dq"]))
-        opt = "--o=" if (style == "none" and not dot and draw(hs.integers(0, 9)) == 0) else ""
         closed = style != "none" and draw(hs.integers(0, 2)) == 0
         k = draw(hs.one_of(hs.sampled_from([0, 0, 1, 2, len(name), len(name)]), hs.integers(0, len(name))))
         k = min(k, len(name))
-        dirpart = ("./" if dot else "") + (subdir + "/" if subdir else "")
-        # recorded findings: the shape is not generated while the finding is open
-        shp = shape_of(name, isdir, dirpart + name) & open_ids
-        if shp:
-            if stats is not None:
-                for fid in shp:
-                    stats.excluded_known[fid] += 1
-            repl = {"\\": "b", "!": "i", " ": "_", "$": "S"}
-            name2 = name
-            if "C18-F1" in shp:
-                name2 = name2.rstrip("\\") + "b"
-            if "C18-F2" in shp:
-                name2 = name2.replace("!", "i")
-            if "C18-F4" in shp:
-                name2 = name2.rstrip(" ") + "_"
-            if "C18-F3" in shape_of(name2, isdir, dirpart + name2):
-                # keep the quotes, drop what forces a raw string (or the other way round)
-                if draw(hs.booleans()):
-                    name2 = name2.replace("\\", repl["\\"]).replace("$", repl["$"])
-                    if subdir:
-                        subdir = subdir.replace("\\", "b").replace("$", "S")
-                else:
-                    name2 = name2.replace("'", "q").replace('"', "Q")
-                    if subdir:
-                        subdir = subdir.replace("'", "q").replace('"', "Q")
-            name = name2
-            k = min(k, len(name))
-            dirpart = ("./" if dot else "") + (subdir + "/" if subdir else "")
-        if subdir and (shape_of(subdir, True, subdir) & open_ids or shape_of(name, isdir, dirpart + name) & open_ids):
-            subdir = "s d"
-            dirpart = ("./" if dot else "") + subdir + "/"
         choices = draw(hs.lists(hs.tuples(hs.integers(0, 15), hs.booleans()), max_size=3))
-        decoys = pick_decoys(name, choices, open_ids, dirpart)
-        return {"part": "A", "name": name, "isdir": isdir, "subdir": subdir, "dot": dot, "opt": opt, "style": style,
-                "closed": closed, "k": k, "decoys": decoys}
+        flip = draw(hs.booleans())
+        case = {"part": "A", "name": name, "isdir": isdir, "subdir": subdir, "dot": dot, "opt": "", "style": style,
+                "closed": closed, "k": k, "decoys": pick_decoys(name, choices)}
+        return repair_known(case, open_ids, stats, flip)
 
     return cases()
 
@@ -573,30 +636,32 @@ def key_a(case):
             case.get("closed"), case["k"], tuple(map(tuple, case.get("decoys", []))))
 
 
-def fixed_cases(open_ids):
+def fixed_cases(open_ids, stats=None):
     for name in FIXED_NAMES:
         for style in STYLE_IDS:
-            ks = sorted({0, 1, len(name)})
-            for k in ks:
+            for k in sorted({0, 1, len(name)}):
                 for closed in ((False,) if style == "none" else (False, True)):
                     for isdir in (False, True):
                         if isdir and (k != 1 or closed):
                             continue
-                        if shape_of(name, isdir, name) & open_ids:
+                        case = {"part": "A", "name": name, "isdir": isdir, "subdir": "", "dot": False, "opt": "", "style": style,
+                                "closed": closed, "k": k, "decoys": [["decoy", False], [name + "x", False]]}
+                        shp = case_shapes(case) & open_ids
+                        if shp & case_shapes(dict(case, decoys=[])):
+                            if stats is not None:
+                                for fid in shp:
+                                    stats.excluded_known[fid] += 1
                             continue
-                        decoys = [["decoy", False]]
-                        v = name + "x"
-                        if not shape_of(v, False, v) & open_ids:
-                            decoys.append([v, False])
-                        yield {"part": "A", "name": name, "isdir": isdir, "subdir": "", "dot": False, "opt": "", "style": style,
-                               "closed": closed, "k": k, "decoys": decoys}
+                        if shp:
+                            case["decoys"] = [["decoy", False]]
+                        yield case
 
 
 def worker_a_fixed(arg):
     shard, nshards, scratch = arg
     st_ = _setup(scratch)
     st = Stats()
-    for i, case in enumerate(fixed_cases(st_["open"])):
+    for i, case in enumerate(fixed_cases(st_["open"], st if shard == 0 else None)):
         if i % nshards != shard:
             continue
         f, nt, labels = check_case_a(case)
@@ -632,6 +697,9 @@ def worker_a(arg):
     strat = case_strategy_a(st_["open"], st)
 
     def body(case):
+        if case is None:
+            st.discards += 1
+            return
         f, nt, labels = check_case_a(case)
         if labels == ["A:outside-domain"]:
             st.hist["A:outside-domain"] += 1
@@ -684,7 +752,7 @@ def _shrink_a(f, open_ids, seed):
             if n2 and n2 not in (".", ".."):
                 trials.append(dict(cur, name=n2, k=min(cur["k"], len(n2))))
         for t in trials:
-            if shape_of(t["name"], t["isdir"], t["name"]) & open_ids and not (f.finding in open_ids):
+            if case_shapes(t) & open_ids and not (f.finding in open_ids):
                 continue
             g = still(t)
             if g is not None:
@@ -843,8 +911,14 @@ def _classify_b(text, cursor, kind, detail):
     """
     if kind.startswith("exception:AttributeError@lexer.py:handle_error_linecont") and re.match(r"^[ \t\x0c]*\\\n", text):
         return "C18-F5"
-    if kind in ("prefix", "suffix") and _LEXMSG in detail and _lexmsg_shape(text):
-        return "C18-F6"
+    if kind in ("prefix", "suffix") and _lexmsg_shape(text):
+        m = re.search(r"prefix=(\'(?:[^\'\\\\]|\\\\.)*\'|\"(?:[^\"\\\\]|\\\\.)*\"), suffix=(\'(?:[^\'\\\\]|\\\\.)*\'|\"(?:[^\"\\\\]|\\\\.)*\"), opening_quote=", detail)
+        try:
+            joined = ast.literal_eval(m.group(1)) + ast.literal_eval(m.group(2)) if m else ""
+        except Exception:  # noqa: BLE001
+            joined = ""
+        if _LEXMSG in joined:
+            return "C18-F6"
     if kind == "hang@tokenize.py:_tokenize" and _fstring_newline_shape(text):
         return "C18-F7"
     if kind in ("prefix", "suffix") and cursor > 0 and text[cursor - 1:cursor + 1] == "\\\n":
@@ -860,14 +934,6 @@ def _inside_closing_triple(text, cursor):
     for j in (1, 2):
         t = text[cursor - j:cursor - j + 3] if cursor - j >= 0 else ""
         if t in ("'''", '"""'):
-            return True
-    return False
-
-
-def _lexmsg_shape(text):
-    for m in re.finditer(r"\w+", text):
-        c = m.group()[0]
-        if ord(c) > 127 and not c.isidentifier():
             return True
     return False
 
@@ -1111,20 +1177,21 @@ def run_atheris(run, nproc, seconds):
 
 def worker(arg):
     kind = arg[0]
-    if kind == "A":
-        return worker_a(arg[1:])
-    if kind == "AF":
-        return worker_a_fixed(arg[1:])
-    if kind == "B":
-        return worker_b(arg[1:])
-    raise common.HarnessError("bad worker kind %r" % (kind,))
+    fn = {"A": worker_a, "AF": worker_a_fixed, "B": worker_b}.get(kind)
+    if fn is None:
+        raise common.HarnessError("bad worker kind %r" % (kind,))
+    t0 = time.time()
+    st = fn(arg[1:])
+    st.hist["worker-seconds:" + kind] += int(time.time() - t0)
+    return st
 
 
 def _replay_case(case):
     if case.get("part") == "B":
         _parser()
         return check_case_b(case)
-    _setup(_state.get("scratch_hint") or os.path.join(common.WORK, "c18-replay"))
+    if not _state:
+        raise common.HarnessError("Part A replay before _setup()")
     return check_case_a(case)[0]
 
 
@@ -1176,7 +1243,8 @@ def replay(run, path):
     with open(path) as f:
         d = json.load(f)
     case = d.get("case", d)
-    _state["scratch_hint"] = os.path.join(run.scratch, "replay")
+    if case.get("part") != "B":
+        _setup(os.path.join(run.scratch, "replay"))
     fail = _replay_case(case)
     os.chdir(common.VERIF)
     if fail is None:
